@@ -10,7 +10,7 @@
 (* / Qr on what the real code produced for each row.                         *)
 (***************************************************************************)
 EXTENDS Naturals, Sequences, FiniteSets, TLC, Json
-Atoms == {"a", "e2", "e3", "e4", "eq", "semi", "colon", "pct"}    \* pct: '%', harmless - unless a text is used as a format string
+Atoms == {"a", "e2", "e3", "e4", "eq", "semi", "colon", "pct", "sp"}      \* sp: a blank (at the end of a value it is easily "trimmed")    \* pct: '%', harmless - unless a text is used as a format string
 Width(x) == CASE x = "e2" -> 2 [] x = "e3" -> 3 [] x = "e4" -> 4 [] OTHER -> 1
 RECURSIVE ByteLen(_)
 ByteLen(s) == IF s = <<>> THEN 0 ELSE Width(Head(s)) + ByteLen(Tail(s))
